@@ -123,6 +123,26 @@ def run(ck):
     ck.stream("histories", description="lock-step histories: result, position, contents (with guard bytes) and reservation ranges after every operation; model and append-only-log specification run side by side",
               exhaustive_part="all %d^%d op sequences x capacities 0..4 (slice) and vec with spare capacity 0/1/2/5; all %d^%d read/peek sequences x buffer lengths 0..4; reads and peeks of 2^63 and of nearly 2^64 bytes after every two-step prefix" % (len(alpha), L, len(ralpha), L),
               exhaustive_cases=n_exh + n_src, random_cases=nrand)
+    # numbers through the Encoder into fixed slices that are too small by 1..n bytes: a number is one operation, a refused one leaves nothing behind
+    from ..codec_common import parse_ty, to_toks
+    nlines = []
+    for tn, vals in (("u16", [0, 1, 0xABCD]), ("i16", [-2, 300]), ("u32", [7, 0xDEADBEEF]), ("i32", [-1, 1 << 30]), ("u64", [1, (1 << 64) - 1]), ("i64", [-(1 << 63), 5]),
+                     ("varuint", [63, 64, 16383, 16384, (1 << 30) - 1, 1 << 30, (1 << 62) - 1]), ("varint", [-1, -33, 8191, -8193, 1 << 40, -(1 << 61)]), ("size", [0, 64, 70000]), ("f32", [0x3F800000]), ("f64", [0x7FF8000000000001])):
+        for v in vals:
+            nlines.append("enc %s %s" % (tn, " ".join(to_toks(("p", tn) if tn in ("varuint", "varint", "size", "f32", "f64") else parse_ty(tn), v))))
+    # sequences and strings of 0..40 elements into a growable target that starts empty (it grows as needed) and into exactly sized slices
+    for k in list(range(0, 41)) + [63, 64, 65, 300]:
+        nlines.append("enc seq(u8) %s" % " ".join(to_toks(parse_ty("seq(u8)"), [i % 251 for i in range(k)])))
+        nlines.append("enc seq(bool) %s" % " ".join(to_toks(parse_ty("seq(bool)"), [i % 3 == 0 for i in range(k)])))
+        nlines.append("enc seq(str) %s" % " ".join(to_toks(parse_ty("seq(str)"), ["" if i % 2 else "x" for i in range(k)])))
+        nlines.append("enc str %s" % " ".join(to_toks(parse_ty("str"), "y" * k)))
+    on = core.run_impl("codec", nlines)
+    ck.stream("refused-numbers", description="fixed- and variable-width numbers encoded into fixed slices of every capacity below their width: the encode is refused and the slice is left as it was, position included; "
+              "sequences and strings of 0..40 (and 63..65, 300) elements into a growable target that starts empty and into exactly sized slices: accepted")
+    for l, oo in zip(nlines, on):
+        ck.count("refused-numbers", l)
+        if not oo.startswith("ok "):
+            ck.violation("refused-numbers", "refused-number-left-something-behind" if oo.startswith("partialwrite") else "number-encode", l, "refused for every smaller slice, nothing written", oo[:200])
     ck.extra["exhaustive"] = True
     ck.extra["rule"] = ("bounded-exhaustive: every sequence of %d operations over {write byte, write k, reserve k, write k into reservation r (r in 0..1)} with k in 0..3 on "
                         "fixed slices of capacity 0..4 and on the growable target with spare capacity 0, 1, 2 and 5 (shorter histories are prefixes: every step is observed); every sequence of %d reads/peeks (k in 0..3) "
